@@ -30,6 +30,7 @@ type Engine struct {
 	overlay   map[string][]byte // synthesised spec files (for executable contracts in replays)
 	broken    map[string]string // synthesised clause functions that no longer type-check
 	keySorts  *Sorts // only for typeKey computations that must be unit independent
+	dispatch    []*DispatchCheck
 	renamedBare map[string]string // functions under contract that were renamed: old bare name -> new bare name
 	renamedNew  map[string]string // new funcName -> old funcName (for baseline lookups)
 	renamedKey  map[string]string // the same by funcName: "saml.old" -> "saml.new", "(*saml.T).old" -> "saml.new"
@@ -185,6 +186,12 @@ func (e *Engine) paramTarget(fr *frame, i int, names ModSet) {
 // callMods: what a call instruction inside the current frame may modify, in the frame's own names.
 func (e *Engine) callMods(c *ssa.CallCommon, fr *frame) ModSet {
 	res := ModSet{}
+	if name := fr.builderCallName(c); name != "" {
+		if m := c.StaticCallee().Name(); m != "String" && m != "Len" {
+			res[name] = types.Typ[types.String]
+		}
+		return res
+	}
 	var ms ModSet
 	var argVals []ssa.Value
 	if c.IsInvoke() {
